@@ -764,14 +764,14 @@ pub fn check(ctx: &Ctx) {
     );
     let mut ac = Vec::new();
     for v6 in [false, true] {
-        for block in 0..if deep { 40u64 } else { 8 } {
+        for block in 0..if deep { 200u64 } else { 8 } {
             ac.push(AlgCase { v6, first_seed: 7000 + block * 25 });
         }
     }
     ctx.run_space(
         "every_algorithm_x_generated_keys",
         true,
-        "200 (thorough 1000) generated certificates per key version, each with an Ed25519 primary and one subkey of every other algorithm (ECDSA P-256/P-384/P-521/secp256k1, Ed448, EdDSA-legacy, ECDH P-256/P-384/P-521/Curve25519, X25519, X448), so that secret scalars with leading zero octets occur for every field: each key x {usage 254 CFB, usage 253 AEAD}: lock, then in memory and after serialise + parse: the password returns exactly the original material, another password fails, remove_password restores the original packet",
+        "200 (thorough 5000) generated certificates per key version, each with an Ed25519 primary and one subkey of every other algorithm (ECDSA P-256/P-384/P-521/secp256k1, Ed448, EdDSA-legacy, ECDH P-256/P-384/P-521/Curve25519, X25519, X448), so that secret scalars with leading zero octets occur for every field: each key x {usage 254 CFB, usage 253 AEAD}: lock, then in memory and after serialise + parse: the password returns exactly the original material, another password fails, remove_password restores the original packet",
         ac.into_par_iter(),
         run_algs,
     );
